@@ -125,3 +125,16 @@ Theorem C07_report_handlers_are_the_sources : forall k size index unique s,
    fst (fst (Node.run (Node.on_data Caches.KSent k size index unique) s)) = None).
 Proof. exact HandlerEq.report_handlers_are_source. Qed.
 Print Assumptions C07_report_handlers_are_the_sources.
+
+From DT Require GenCaches CacheEq.
+
+(* the cache decisions are the source's: whether a report advances the high-water mark and what the mark becomes,
+   the pause signal from the cached limit and the total after the atomic add, and what a limit update does to the
+   cache are regenerated from channels/caches.go on every run; Caches.fire and Caches.set_limit -- the functions
+   every theorem of this file is about -- are built from exactly these decisions *)
+Theorem C07_cache_decisions_are_the_sources :
+  (forall c cc r, Caches.fire c cc r = CacheEq.fire_gen c cc r) /\
+  (forall cur new, GenCaches.gen_index_step cur new = if Z.ltb cur new then Some new else None) /\
+  (forall limit total, GenCaches.gen_limit_reached limit total = negb (N.eqb limit 0) && N.leb limit total).
+Proof. split; [exact CacheEq.fire_is_source | split; [exact CacheEq.index_step_spec | exact CacheEq.limit_reached_spec]]. Qed.
+Print Assumptions C07_cache_decisions_are_the_sources.
